@@ -45,13 +45,15 @@ func (op *FsTxn) CommitUnstable() bool {
 // Flush log. We don't have to flush data from other file handles, but
 // that is only an option if we do log-by-pass writes.
 func (op *FsTxn) CommitFh() bool {
-	verifhook.Emit(verifhook.EvPreCommit, op, 0)
-	op.preCommit()
-	ok := op.Fs.Txn.Flush()
-	verifhookCommitted(op, ok)
-	op.postCommit()
-	verifhook.Emit(verifhook.EvPostCommit, op, 0)
-	return ok
+	// obj.Log.Flush flushes up to the position of the last commit, but
+	// go-journal resets that position when it rejects a transaction (too
+	// large), and Flush then returns without flushing anything.  Commit the
+	// (unchanged) inodes of this transaction with wait instead: the log is
+	// flushed in order, so everything logged so far becomes durable.
+	for _, ip := range op.inodes {
+		ip.WriteInode(op.Atxn)
+	}
+	return op.commitWait(true)
 }
 
 // An aborted transaction may free an inode, which results in dirty
